@@ -24,12 +24,25 @@ structure LEntry where
   dig : Nat    -- digest of (data, context): payload identity
   deriving DecidableEq, Repr, Inhabited
 
+/-- ghost record of a vote decision: the voter's log when it decided, whether the term had no
+elected leader yet, and the candidate's advertised last (term, index) it was compared against -/
+structure VGhost where
+  vlog : List LEntry := []
+  early : Bool := true
+  clt : Nat := 0
+  cli : Nat := 0
+  deriving DecidableEq, Repr, Inhabited
+
 /-- messages that carry a promise and are *generated* first and *released* only once durable -/
 inductive OMsg where
   | voteReq (term cand lastTerm lastIdx : Nat)
-  | grant (term voter cand : Nat)
+  | grant (term voter cand : Nat) (gh : VGhost)      -- `gh` is ghost (not on the wire)
   | ack (term frm idx : Nat) (pre : List LEntry)   -- `pre` = the acknowledged prefix (ghost)
   deriving DecidableEq, Repr
+
+def OMsg.isAck : OMsg → Bool
+  | .ack _ _ _ _ => true
+  | _ => false
 
 /-- a volatile image taken at a Ready boundary, waiting to be made durable -/
 structure Image where
@@ -37,6 +50,7 @@ structure Image where
   vote : Nat
   log : List LEntry
   commit : Nat
+  acks : List OMsg := []   -- the acknowledgements generated so far: covered once this image is durable
   deriving DecidableEq, Repr, Inhabited
 
 structure PNode where
@@ -52,6 +66,7 @@ structure PNode where
   dcommit : Nat := 0
   pending : List Image := []
   outbox : List OMsg := []
+  dacks : List OMsg := []   -- acknowledgements covered by the durable image
   deriving Repr, Inhabited
 
 structure VoteReq where
@@ -120,6 +135,9 @@ structure PSys where
   -- ghost history
   llog : Nat → List LEntry        -- log of the leader of each term
   elected : List (Nat × Nat)      -- (term, node)
+  elog : Nat → List LEntry := fun _ => []   -- the log each term's leader was elected with
+  rgv : List (Grant × VGhost) := []         -- ghost records of the released grants
+  cmts : List (Nat × Nat) := []             -- (term, index) of every leader commit
 
 def init : PSys := { nodes := fun _ => {}, llog := fun _ => [], elected := [] }
 
@@ -185,6 +203,7 @@ inductive Event where
   | sendApp (i : Nat) (m : App)
   | recvApp (i : Nat) (m : App)
   | ackCommitted (i : Nat)
+  | ackSelf (i idx : Nat)
   | commitLeader (i c : Nat) (cfg : Cfg) (q : List Nat)
   | commitApp (i c : Nat) (m : App)
   | commitHB (i c : Nat) (m : HB)
@@ -197,18 +216,19 @@ inductive Event where
   | bootstrap (i donor idx : Nat)   -- a fresh node is started from another node's durable committed prefix
   deriving Repr
 
-def image (n : PNode) : Image := { term := n.term, vote := n.vote, log := n.log, commit := n.commit }
+def image (n : PNode) : Image :=
+  { term := n.term, vote := n.vote, log := n.log, commit := n.commit, acks := n.outbox.filter OMsg.isAck }
 
 /-- may the `k`-th outbox message of `n` be released now?  ("released only after the hard state and
 log entries it depends on have been reported persisted") -/
 def releasable (n : PNode) : OMsg → Bool
   | .voteReq t c _ _ => decide (t < n.dterm) || (decide (n.dterm = t) && decide (n.dvote = c))
-  | .grant t _ c => decide (t < n.dterm) || (decide (n.dterm = t) && decide (n.dvote = c))
-  | .ack t _ idx pre => decide (t < n.dterm) || (decide (n.dterm = t) && decide (n.dlog.take idx = pre))
+  | .grant t _ c _ => decide (t < n.dterm) || (decide (n.dterm = t) && decide (n.dvote = c))
+  | .ack t f idx pre => n.dacks.contains (.ack t f idx pre)
 
 def addReleased (s : PSys) : OMsg → PSys
   | .voteReq t c lt li => { s with reqs := ⟨t, c, lt, li⟩ :: s.reqs }
-  | .grant t v c => { s with grants := ⟨t, v, c⟩ :: s.grants }
+  | .grant t v c gh => { s with grants := ⟨t, v, c⟩ :: s.grants, rgv := (⟨t, v, c⟩, gh) :: s.rgv }
   | .ack t f idx pre => { s with acks := ⟨t, f, idx, pre⟩ :: s.acks }
 
 def ok (s : PSys) : Except String PSys := .ok s
@@ -216,7 +236,7 @@ def ok (s : PSys) : Except String PSys := .ok s
 /-- outbox lookup: same kind and same wire-visible fields -/
 def sameKey : OMsg → OMsg → Bool
   | .voteReq t c _ _, .voteReq t' c' _ _ => t == t' && c == c'
-  | .grant t v c, .grant t' v' c' => t == t' && v == v' && c == c'
+  | .grant t v c _, .grant t' v' c' _ => t == t' && v == v' && c == c'
   | .ack t f idx _, .ack t' f' idx' _ => t == t' && f == f' && idx == idx'
   | _, _ => false
 
@@ -231,14 +251,16 @@ def applyEvent (s : PSys) : Event → Except String PSys
     let n := s.nodes i
     if n.up ∧ n.vote = 0 ∧ n.role ≠ 2 ∧ 0 < i ∧ 0 < n.term then
       -- the self-vote is a grant to oneself: it is counted by `win` only once released (= durable)
-      ok { s with nodes := upd s.nodes i { n with vote := i, role := 1, outbox := n.outbox ++ [.voteReq n.term i (lastTerm n.log) n.log.length, .grant n.term i i] } }
+      ok { s with nodes := upd s.nodes i { n with vote := i, role := 1, outbox := n.outbox ++ [.voteReq n.term i (lastTerm n.log) n.log.length, .grant n.term i i ⟨n.log, !(s.elected.any (fun p => p.1 = n.term)), lastTerm n.log, n.log.length⟩] } }
     else .error "campaign: node down, already voted in this term, or leader"
   | .grant i c =>
     let n := s.nodes i
-    if n.up ∧ c ≠ i ∧ 0 < c ∧ (n.vote = 0 ∨ n.vote = c) ∧ n.role ≠ 2 ∧
-        s.reqs.any (fun r => r.term = n.term ∧ r.cand = c ∧ upToDate r.lastTerm r.lastIdx n.log) then
-      ok { s with nodes := upd s.nodes i { n with vote := c, role := 0, outbox := n.outbox ++ [.grant n.term i c] } }
-    else .error "grant: no released up-to-date vote request for this term, or already voted for another"
+    match s.reqs.find? (fun r => r.term = n.term ∧ r.cand = c ∧ upToDate r.lastTerm r.lastIdx n.log) with
+    | some r =>
+      if n.up ∧ c ≠ i ∧ 0 < c ∧ (n.vote = 0 ∨ n.vote = c) ∧ n.role ≠ 2 then
+        ok { s with nodes := upd s.nodes i { n with vote := c, role := 0, outbox := n.outbox ++ [.grant n.term i c ⟨n.log, !(s.elected.any (fun p => p.1 = n.term)), r.lastTerm, r.lastIdx⟩] } }
+      else .error "grant: node down, or already voted for another candidate in this term"
+    | none => .error "grant: no released up-to-date vote request for this term"
   | .rdy i =>
     let n := s.nodes i
     if n.up then ok { s with nodes := upd s.nodes i { n with pending := n.pending ++ [image n] } }
@@ -248,20 +270,29 @@ def applyEvent (s : PSys) : Event → Except String PSys
     if n.up ∧ 0 < k ∧ k ≤ n.pending.length then
       match n.pending[k - 1]? with
       | some im =>
-        ok { s with nodes := upd s.nodes i { n with dterm := im.term, dvote := im.vote, dlog := im.log, dcommit := im.commit, pending := n.pending.drop k } }
+        ok { s with nodes := upd s.nodes i { n with dterm := im.term, dvote := im.vote, dlog := im.log, dcommit := im.commit, dacks := im.acks, pending := n.pending.drop k } }
       | none => .error "persist: no such pending image"
     else .error "persist: node down or no such pending image"
   | .release i key =>
     let n := s.nodes i
-    match n.outbox.findIdx? (sameKey key) with
-    | some k =>
-      match n.outbox[k]? with
+    if key.isAck then
+      -- an acknowledgement is released once an image taken after its generation is durable; it stays
+      -- known to the node (it is part of what the durable image covers)
+      match n.dacks.find? (sameKey key) with
       | some m =>
-        if n.up ∧ releasable n m then
-          ok (addReleased { s with nodes := upd s.nodes i { n with outbox := n.outbox.eraseIdx k } } m)
-        else .error "release: the promise this message carries is not durable yet"
-      | none => .error "release: no such outbox message"
-    | none => .error "release: this message was never generated by the node"
+        if n.up ∧ m.isAck then ok (addReleased s m)
+        else .error "release: node down"
+      | none => .error "release: this acknowledgement is not covered by the durable image yet"
+    else
+      match n.outbox.findIdx? (sameKey key) with
+      | some k =>
+        match n.outbox[k]? with
+        | some m =>
+          if n.up ∧ releasable n m ∧ !m.isAck then
+            ok (addReleased { s with nodes := upd s.nodes i { n with outbox := n.outbox.eraseIdx k } } m)
+          else .error "release: the promise this message carries is not durable yet"
+        | none => .error "release: no such outbox message"
+      | none => .error "release: this message was never generated by the node"
   | .crash i =>
     let n := s.nodes i
     if n.up then
@@ -270,13 +301,13 @@ def applyEvent (s : PSys) : Event → Except String PSys
   | .restart i =>
     let n := s.nodes i
     if !n.up then
-      ok { s with nodes := upd s.nodes i { n with up := true, term := n.dterm, vote := n.dvote, log := n.dlog, commit := n.dcommit, role := 0, pending := [], outbox := [] } }
+      ok { s with nodes := upd s.nodes i { n with up := true, term := n.dterm, vote := n.dvote, log := n.dlog, commit := n.dcommit, role := 0, pending := [], outbox := n.dacks.filter OMsg.isAck } }
     else .error "restart: node is up"
   | .win i cfg q =>
     let n := s.nodes i
     if n.up ∧ n.role = 1 ∧ n.vote = i ∧ cfg.isQuorum q ∧ s.grants.contains ⟨n.term, i, i⟩ ∧
         q.all (fun v => s.grants.contains ⟨n.term, v, i⟩) then
-      ok { s with nodes := upd s.nodes i { n with role := 2 }, llog := updT s.llog n.term n.log, elected := (n.term, i) :: s.elected }
+      ok { s with nodes := upd s.nodes i { n with role := 2 }, llog := updT s.llog n.term n.log, elog := updT s.elog n.term n.log, elected := (n.term, i) :: s.elected }
     else .error "win: not a candidate with a quorum of released grants (its own durable self-vote included)"
   | .stepDown i =>
     let n := s.nodes i
@@ -305,16 +336,22 @@ def applyEvent (s : PSys) : Event → Except String PSys
     else .error "recvApp: message not released / wrong term / anchor mismatch / conflict at or below commit"
   | .ackCommitted i =>
     let n := s.nodes i
-    if n.up ∧ n.role ≠ 2 then
+    if n.up ∧ n.role ≠ 2 ∧ s.apps.any (fun m => m.term = n.term) then
       ok { s with nodes := upd s.nodes i { n with outbox := n.outbox ++ [.ack n.term i n.commit (n.log.take n.commit)] } }
-    else .error "ackCommitted: node down or leader"
+    else .error "ackCommitted: node down, leader, or no append of the current term was ever released"
+  | .ackSelf i idx =>
+    let n := s.nodes i
+    if n.up ∧ n.role = 2 ∧ idx ≤ n.log.length then
+      -- the leader's own acknowledgement: generated like a follower's, released once the image that
+      -- contains it is durable ("counting the leader itself only for what it has itself persisted")
+      ok { s with nodes := upd s.nodes i { n with outbox := n.outbox ++ [.ack n.term i idx (n.log.take idx)] } }
+    else .error "ackSelf: not leader or index beyond the log"
   | .commitLeader i c cfg q =>
     let n := s.nodes i
     if n.up ∧ n.role = 2 ∧ n.commit < c ∧ c ≤ n.log.length ∧ termAt n.log c = n.term ∧ cfg.isQuorum q ∧
-        q.all (fun v => (v = i ∧ c ≤ n.dlog.length ∧ n.dlog.take c = n.log.take c ∧ n.dterm = n.term) ∨
-                         s.acks.any (fun a => a.term = n.term ∧ a.frm = v ∧ c ≤ a.idx)) then
-      ok { s with nodes := upd s.nodes i { n with commit := c } }
-    else .error "commitLeader: not an own-term entry durable on a quorum"
+        q.all (fun v => s.acks.any (fun a => a.term = n.term ∧ a.frm = v ∧ c ≤ a.idx)) then
+      ok { s with nodes := upd s.nodes i { n with commit := c }, cmts := (n.term, c) :: s.cmts }
+    else .error "commitLeader: not an own-term entry acknowledged (durably) by a quorum"
   | .commitApp i c m =>
     let n := s.nodes i
     if n.up ∧ s.apps.contains m ∧ m.term = n.term ∧ n.commit < c ∧ c ≤ m.commit ∧
